@@ -11,10 +11,10 @@ pub fn prop() -> Prop {
     Prop {
         id: "C15",
         level: "model_checking",
-        rule: "values = 30 (all types, absent, empty string, strings with quote, comma, CR, LF, tab, blanks at both ends, non-ASCII, strings spelled like keywords and numbers, 64-bit and fractional numbers, nested values holding such strings); csv: every row of 1..2 selections (3 selections: quick a slice of 2 700 rows, thorough all 27 000) over the values x 4 sets of selection names (plain; with blank, comma, quote; non-ASCII; two selections sharing a name) and multi-record inputs; rows of 5 selections with a field of 15..8192 characters (quote, comma, line break or non-ASCII at the far end; long nested cells) in each column in turn; 100 and 1000 records in one run; text: every row of 1..2 selections over 24 values with an unambiguous spelling x every option set within 3 deviations of the defaults (thorough: the full product of 7 776 option sets) over items separator(4), string prefix/postfix(3), null/true/false keywords(3,2,2), missing-value keyword(3), --headers(2), escape sequences(5, two of them with a replacement that contains a character another sequence escapes), row separator(3); ~60 numbers in less common forms (17 significant digits, exponent forms, the ends of the 64-bit and double ranges) read from the input, taken out of a list by a function, re-made by parse and passed through a pipe, as csv and text fields that must read back as exactly that number; non-trivial = the row holds a string with a special character, a nested value, an absent value or a keyword look-alike; distinct by construction",
+        rule: "values = 30 (all types, absent, empty string, strings with quote, comma, CR, LF, tab, blanks at both ends, non-ASCII, strings spelled like keywords and numbers, 64-bit and fractional numbers, nested values holding such strings); csv: every row of 1..2 selections (3 selections: quick a slice of 2 700 rows, thorough all 27 000) over the values x 4 sets of selection names (plain; with blank, comma, quote; non-ASCII; two selections sharing a name) and multi-record inputs; rows of 5 selections with a field of 15..8192 characters (quote, comma, line break or non-ASCII at the far end; long nested cells) in each column in turn; 100 and 1000 records in one run; text: every row of 1..2 selections over 24 values with an unambiguous spelling x every option set within 3 deviations of the defaults (thorough: the full product of 7 776 option sets) over items separator(4), string prefix/postfix(3), null/true/false keywords(3,2,2), missing-value keyword(3), --headers(2), escape sequences(5, two of them with a replacement that contains a character another sequence escapes), row separator(3); ~60 numbers in less common forms (17 significant digits, exponent forms, the ends of the 64-bit and double ranges) read from the input, taken out of a list by a function, re-made by parse and passed through a pipe, as csv and text fields that must read back as exactly that number; text with one off-nominal option value at a time (~80: empty strings, values beginning with - or holding = or a quote, several characters, non-ASCII, a blank, for the items and row separators, the string prefix/postfix and the four keywords); non-trivial = the row holds a string with a special character, a nested value, an absent value or a keyword look-alike; distinct by construction",
         explanation: "csv output is read back by an independent RFC 4180 reader (skip-initial-space): header = the names in order, N fields per record, each field recovered by type (string content, decimal spelling by exact value, True/False/null, concise JSON re-read by the strict reader and free of insignificant whitespace); text output is compared byte for byte with the rendering the option help pins (prefix + escaped characters + postfix, keywords, separators)",
         assumptions: COMMON_ASSUMPTIONS.to_vec(),
-        guards: vec!["number-in-a-less-common-form", "equals-signs-inside-the-selection", "non-ascii-text-before-the-selection-name", "long-fields", "quote-in-string", "comma-in-string", "newline-in-string", "absent-field", "nested-with-special-string", "header-with-special-name", "escape-sequence-applied", "missing-keyword-printed", "text-headers", "three-fields"],
+        guards: vec!["off-nominal-option-value", "number-in-a-less-common-form", "equals-signs-inside-the-selection", "non-ascii-text-before-the-selection-name", "long-fields", "quote-in-string", "comma-in-string", "newline-in-string", "absent-field", "nested-with-special-string", "header-with-special-name", "escape-sequence-applied", "missing-keyword-printed", "text-headers", "three-fields"],
         budget_s: (100, 1800),
         single_worker: false,
         run,
@@ -529,6 +529,99 @@ fn number_fields(ctx: &mut Ctx) {
     ctx.level_done(&format!("numbers-in-less-common-forms({}-numbers-x-4-routes-x-csv,text)", lits.len()));
 }
 
+/// Option values that are legal but off-nominal, one at a time next to the defaults: empty strings, values that begin
+/// with `-` or hold `=` or a quote, several characters, characters beyond ASCII, a blank.
+fn text_off_nominal(ctx: &mut Ctx) {
+    let d = || opts_of(&[0; 9]);
+    let mut sets: Vec<(String, TextOpts)> = Vec::new();
+    for v in ["", "-", "--", "=", "a=b", "\"", "\u{2192}", " ", "||", "\\t", ", "] {
+        let mut o = d();
+        o.items = v;
+        sets.push((format!("items-separator {v:?}"), o));
+    }
+    for v in ["-", "=", "\"", "\u{ab}", "--x", " ", "''"] {
+        let mut o = d();
+        o.prefix = v;
+        sets.push((format!("string-prefix {v:?}"), o));
+        let mut o = d();
+        o.postfix = v;
+        sets.push((format!("string-postfix {v:?}"), o));
+        let mut o = d();
+        o.prefix = v;
+        o.postfix = v;
+        sets.push((format!("string-prefix and -postfix {v:?}"), o));
+    }
+    for v in ["-", "=x", "NULL NULL", "\u{2205}", "\"null\"", "--null"] {
+        let mut o = d();
+        o.null = v;
+        sets.push((format!("null-keyword {v:?}"), o));
+        let mut o = d();
+        o.tru = v;
+        sets.push((format!("true-keyword {v:?}"), o));
+        let mut o = d();
+        o.fals = v;
+        sets.push((format!("false-keyword {v:?}"), o));
+        let mut o = d();
+        o.missing = Some(v);
+        sets.push((format!("missing-value-keyword {v:?}"), o));
+    }
+    for v in ["", ";", "--", "=\n", "\u{2028}", "\n\n", " "] {
+        let mut o = d();
+        o.row = v;
+        sets.push((format!("row-separator {v:?}"), o));
+        let mut o = d();
+        o.row = v;
+        o.headers = true;
+        sets.push((format!("row-separator {v:?} with headers"), o));
+    }
+    let names = ["col a", "b"];
+    for (what, o) in &sets {
+        if !ctx.mine() {
+            continue;
+        }
+        for first in TEXT_VALS {
+            let mut args = o.args();
+            // the defaults are left out by args(); an empty value has to be said
+            for (opt, val, dflt) in [("--items-seperator", o.items, d().items), ("--string-prefix", o.prefix, d().prefix), ("--string-postfix", o.postfix, d().postfix), ("--null-keyword", o.null, d().null), ("--row-seperator", o.row, d().row)] {
+                if val != dflt && !args.iter().any(|a| a.starts_with(&format!("{opt}="))) {
+                    args.push(format!("{opt}={val}"));
+                }
+            }
+            for (j, n) in names.iter().enumerate() {
+                args.push(format!("--select=.c{j}={n}"));
+            }
+            let mut input = String::new();
+            let mut expected = String::new();
+            if o.headers {
+                expected.push_str(&names.iter().map(|n| o.string(n)).collect::<Vec<_>>().join(o.items));
+                expected.push_str(o.row);
+            }
+            for second in TEXT_VALS {
+                let r = vec![first, second];
+                input.push_str(&record(&r));
+                input.push('\n');
+                let fs: Vec<String> = r.iter().map(|i| o.field(&VALS[*i].map(json::parse_str))).collect();
+                expected.push_str(&fs.join(o.items));
+                expected.push_str(o.row);
+            }
+            let case = Case::owned(args, input.into_bytes());
+            let obs = ctx.run(&case);
+            ctx.case_done();
+            ctx.trace_validated();
+            ctx.nontrivial();
+            ctx.guard("off-nominal-option-value");
+            ctx.transition(&("off-nominal", what.clone(), first));
+            if !obs.res.is_ok() || obs.stdout != expected.as_bytes() {
+                ctx.outcome("violation");
+                ctx.violation("text-output-differs-from-the-documented-rendering", &format!("text with {what}"), &[case.clone()], format!("{expected:?}"), obs.brief());
+            } else {
+                ctx.outcome("text-ok");
+            }
+        }
+    }
+    ctx.level_done(&format!("text:off-nominal-option-values({}-single-deviations)", sets.len()));
+}
+
 /// size thresholds for csv: long fields (quotes / commas / line breaks at the far end), long nested cells,
 /// 4 and 5 selections, many records in one run
 fn csv_sizes(ctx: &mut Ctx) {
@@ -641,5 +734,6 @@ fn run(ctx: &mut Ctx) {
     csv_sizes(ctx);
     number_fields(ctx);
     text_part(ctx);
+    text_off_nominal(ctx);
     let _ = Tier::Quick;
 }
